@@ -79,6 +79,7 @@ func checkC01(c *km.Ctx) {
 		checkLevelFlag(c, s, flag.Parent(), flag)
 	}
 	checkAnyMask(c, "R-C01-6")
+	checkConfigListsNotRewritten(c, "R-C01-6")
 	checkConfigKeys(c, "R-C01-6", "the factors the operator requires", "base.allowed_auth_backends_for_")
 	if flag == nil && decision == nil {
 		checkAuthBits(c, s, checkAuth, "R-C01-3")
@@ -900,4 +901,91 @@ func checkAnyMask(c *km.Ctx, rule string) {
 	}
 	sort.Strings(missing)
 	c.R.Add(rule, "cmd/keymasterd", "AuthTypeAny", "cmd/keymasterd/app.go", "AuthTypeAny & K == K for every credential constant K", sprintf("value=%#x missing=%v", anyV, missing), len(missing) == 0)
+}
+
+// checkConfigListsNotRewritten: the operator's lists (the acceptable methods among them) stay what the
+// configuration file said for the life of the process: no code appends into a re-slice of one (list[:0], list[:n] -
+// the classic in-place filter), directly or through a helper that is handed the list, and none stores into an
+// element. Such a write changes what every later request is judged against.
+func checkConfigListsNotRewritten(c *km.Ctx, rule string) {
+	isConfigList := func(v ssa.Value) bool {
+		_, path, ok := km.FieldPath(km.Unwrap(v))
+		return ok && strings.Contains(path, "Config.")
+	}
+	var fromConfig func(v ssa.Value, d int) (bool, string)
+	fromConfig = func(v ssa.Value, d int) (bool, string) {
+		v = km.Unwrap(v)
+		if isConfigList(v) {
+			return true, km.ValStr(v)
+		}
+		p, isP := v.(*ssa.Parameter)
+		if !isP || d > 2 {
+			return false, ""
+		}
+		g := p.Parent()
+		idx := -1
+		for i, q := range g.Params {
+			if q == p {
+				idx = i
+			}
+		}
+		for _, cs := range c.G.Callers[g] {
+			ci, ok := cs.Instr.(ssa.CallInstruction)
+			if !ok || idx < 0 || idx >= len(ci.Common().Args) {
+				continue
+			}
+			if is, what := fromConfig(ci.Common().Args[idx], d+1); is {
+				return true, what + " (handed in at " + posOf(c, cs.Instr) + ")"
+			}
+		}
+		return false, ""
+	}
+	nAppend, bad := 0, ""
+	for _, fn := range c.P.AllFuncs {
+		if fn.Pkg == nil || !pkgIsKMD(fn.Pkg) {
+			continue
+		}
+		km.Instrs(fn, func(in ssa.Instruction) {
+			switch x := in.(type) {
+			case *ssa.Call:
+				b, isB := x.Common().Value.(*ssa.Builtin)
+				if !isB || b.Name() != "append" {
+					return
+				}
+				nAppend++
+				if sl, isSl := km.Unwrap(x.Common().Args[0]).(*ssa.Slice); isSl {
+					if is, what := fromConfig(sl.X, 0); is {
+						bad = "append into a re-slice of " + clipS(what, 120) + " at " + posOf(c, in)
+					}
+				}
+				// ... also when the re-slice was kept in a variable that the loop appends to
+				if ph, isPh := km.Unwrap(x.Common().Args[0]).(*ssa.Phi); isPh {
+					for _, e := range ph.Edges {
+						if sl, isSl := km.Unwrap(e).(*ssa.Slice); isSl {
+							if is, what := fromConfig(sl.X, 0); is {
+								bad = "append into a re-slice of " + clipS(what, 120) + " at " + posOf(c, in)
+							}
+						}
+					}
+				}
+			case *ssa.Store:
+				if ia, isIA := x.Addr.(*ssa.IndexAddr); isIA {
+					if is, what := fromConfig(ia.X, 0); is {
+						if _, isStr := x.Val.Type().Underlying().(*types.Basic); isStr {
+							bad = "store into an element of " + clipS(what, 120) + " at " + posOf(c, in)
+						}
+					}
+				}
+			}
+		})
+	}
+	if nAppend == 0 {
+		c.R.AnchorLost(rule, "append calls in cmd/keymasterd")
+		return
+	}
+	found := sprintf("%d append sites examined; none writes into a configured list", nAppend)
+	if bad != "" {
+		found = bad
+	}
+	c.R.Add(rule, "cmd/keymasterd", "configured lists are not rewritten at run time", "-", "no append into a re-slice of a configuration list and no store into one of its elements", found, bad == "")
 }
